@@ -10,8 +10,16 @@
    - naive with multi-operator containers (a whole pipeline per container) and overbook with memory
      overcommit: the closed loop never raises (full theorems, Proofs/ClosedLoopFacts.v); hence naive and the
      starter template run to the end in every container mode;
-   The closed-loop claim for priority and priority-pool is decided by the correspondence of whole runs
-   (the implementation must return normally exactly when the model does) and the monitor. *)
+   The closed-loop claim for priority and priority-pool is proved further down (C08_priority_runs_to_end,
+   C08_priority_pool_runs_to_end).
+   NOTE (audit A/P1, A/P2, B/P2): the theorems C08_*_runs_to_end / *_run_errors* are statements about the LOOP
+   [sim_run] started from [init_sim]: the loop without the scheduler's init assertion (priority-pool: exactly two
+   pools) and without the utilisation-percentage statement at the end of tick 0 (simulator.py:364-370, which
+   divides by the total RAM of all pools). They hold for every pool count and size as stated, but the code only
+   starts / gets past tick 0 with 0 < np, ram <> 0 (and np = 2 for priority-pool). The last section restates them
+   for the entry point [sim_main] (Model/Simulator.v), which contains both statements, with those hypotheses.
+   Likewise C08_final_stats_total says nothing about the code for duration = 0 or ticks_per_second = 0 (Coq's
+   x / 0 = 0; Python raises): see C08_final_stats_total_pos and C08_zero_duration_is_totalised. *)
 From Coq Require Import List ZArith QArith.
 Import ListNotations.
 From Eudoxia Require Import Model.Types Model.Dag Model.Lifecycle Model.Container Model.Pool Model.Executor
@@ -228,7 +236,9 @@ Print Assumptions C08_priority_pool_run_errors.
 (* priority-pool with multi-operator containers, the CLOSED LOOP: every workload of pipelines built from
    well-formed DAGs with at least one operator, fresh pipeline ids, every pool count, positive pool sizes, every
    tick rate, every non-empty timing script: the run reaches its last tick (no scheduler decision is refused, no
-   assertion fires, no container tick raises, however many OOM kills and retries happen on the way) *)
+   assertion fires, no container tick raises, however many OOM kills and retries happen on the way).
+   NOTE: a statement about the loop for every [np]; the code only starts with two pools (init assertion of the
+   scheduler): see C08_priority_pool_main_runs_to_end / C08_priority_pool_main_refuses_other_pool_counts below *)
 Theorem C08_priority_pool_runs_to_end : forall C l np cpu ram arrivals,
   cf_static C = mk_static l -> dags_wf l ->
   (forall op c, cf_script C op c <> []) -> cf_multi C = true ->
@@ -312,3 +322,138 @@ Example C08_priority_multi_total_witness :
     sim_run (RunExamples.exC true) APriority 0%Z (init_sim (RunExamples.exC true) 1 2%Z 40%Q)
             [[0; 1]; []; [2]; []; []; []; []; []; []; []] = (sf, logs, None) /\ length logs = 10.
 Proof. exact MultiExamples.ex_multi_total. Qed.
+
+(* ------------------------------------------------------------------------------------------ *)
+(* the entry point [sim_main] (Proofs/SimMainFacts.v): run_simulator from the construction of the scheduler to   *)
+(* the end of the loop, including `assert num_pools == 2` of priority-pool and the utilisation percentage        *)
+(* `100.0 * allocated_ram / total_ram` at the end of tick 0. Hypotheses of a valid configuration: at least one   *)
+(* pool, positive RAM, non-negative CPU count (two pools for priority-pool).                                     *)
+(* ------------------------------------------------------------------------------------------ *)
+From Eudoxia Require Import Proofs.SimMainFacts.
+
+(* under these hypotheses the entry point is the loop, so every theorem above about
+   [sim_run C a 0 (init_sim C np cpu ram) arrivals] is a theorem about [sim_main C a np cpu ram arrivals] *)
+Theorem C08_main_is_loop : forall C a np cpu ram arrivals,
+  (a = APriorityPool -> np = 2) -> 0 < np -> (0 < ram)%Q ->
+  sim_main C a np cpu ram arrivals = sim_run C a 0%Z (init_sim C np cpu ram) arrivals.
+Proof. exact sim_main_is_sim_run. Qed.
+Print Assumptions C08_main_is_loop.
+
+Theorem C08_naive_main_runs_to_end : forall C l (starter : bool) np cpu ram arrivals,
+  cf_static C = mk_static l -> dags_wf l ->
+  (forall op c, cf_script C op c <> []) ->
+  0 < np -> (0 <= cpu)%Z -> (0 < ram)%Q ->
+  NoDup (concat arrivals) ->
+  exists sf logs,
+    sim_main C (if starter then AStarter else ANaive) np cpu ram arrivals = (sf, logs, None) /\
+    length logs = length arrivals.
+Proof. exact naive_main_runs_to_end. Qed.
+Print Assumptions C08_naive_main_runs_to_end.
+
+Theorem C08_overbook_main_runs_to_end : forall C l np cpu ram arrivals,
+  cf_static C = mk_static l -> dags_wf l ->
+  (forall op c, cf_script C op c <> []) ->
+  cf_overcommit C = true ->
+  0 < np -> (0 <= cpu)%Z -> (0 < ram)%Q ->
+  NoDup (concat arrivals) ->
+  exists sf logs,
+    sim_main C AOverbook np cpu ram arrivals = (sf, logs, None) /\ length logs = length arrivals.
+Proof. exact overbook_main_runs_to_end. Qed.
+Print Assumptions C08_overbook_main_runs_to_end.
+
+Theorem C08_priority_main_runs_to_end : forall C l np cpu ram arrivals,
+  cf_static C = mk_static l -> dags_wf l ->
+  (forall op c, cf_script C op c <> []) ->
+  0 < np -> (0 <= cpu)%Z -> (0 < ram)%Q ->
+  NoDup (concat arrivals) ->
+  exists sf logs,
+    sim_main C APriority np cpu ram arrivals = (sf, logs, None) /\ length logs = length arrivals.
+Proof. exact priority_main_runs_to_end. Qed.
+Print Assumptions C08_priority_main_runs_to_end.
+
+(* priority-pool: exactly two pools, multi-operator containers (F10), positive sizes *)
+Theorem C08_priority_pool_main_runs_to_end : forall C l cpu ram arrivals,
+  cf_static C = mk_static l -> dags_wf l ->
+  (forall op c, cf_script C op c <> []) -> cf_multi C = true ->
+  (0 < cpu)%Z -> (0 < ram)%Q ->
+  (forall k, In k (concat arrivals) -> pd_order (pipe_of (cf_static C) k) <> []) ->
+  NoDup (concat arrivals) ->
+  exists sf logs,
+    sim_main C APriorityPool 2 cpu ram arrivals = (sf, logs, None) /\ length logs = length arrivals.
+Proof. exact pp_main_runs_to_end. Qed.
+Print Assumptions C08_priority_pool_main_runs_to_end.
+
+(* priority-pool with any other pool count: refused before the first tick *)
+Theorem C08_priority_pool_main_refuses_other_pool_counts : forall C np cpu ram arrivals,
+  np <> 2 -> sim_main C APriorityPool np cpu ram arrivals = (init_sim C np cpu ram, [], Some ESchedAssert).
+Proof. exact sim_main_refuses_other_pool_counts. Qed.
+Print Assumptions C08_priority_pool_main_refuses_other_pool_counts.
+
+(* no pool, or pools without RAM, and at least one tick to simulate: the run does not get past its first tick.
+   Either that tick raises by itself (then its error is the run's error: e.g. overbook gives a container the
+   whole RAM of its pool, 0 GB, and Assignment.__init__ refuses), or it completes and the utilisation statement
+   divides by zero (EOther = any exception that is not an assertion of the simulator) *)
+Theorem C08_main_refuses_zero_ram : forall C a np cpu ram newp rest,
+  (a = APriorityPool -> np = 2) -> np = 0 \/ (ram == 0)%Q ->
+  (exists e, sim_tick C a 0%Z (init_sim C np cpu ram) newp = Err e /\
+             sim_main C a np cpu ram (newp :: rest) = (init_sim C np cpu ram, [], Some e)) \/
+  (exists s1 lg, sim_tick C a 0%Z (init_sim C np cpu ram) newp = Ok (s1, lg) /\
+                 sim_main C a np cpu ram (newp :: rest) = (s1, [lg], Some EOther)).
+Proof. exact sim_main_zero_total_ram. Qed.
+Print Assumptions C08_main_refuses_zero_ram.
+
+Theorem C08_main_zero_ram_raises : forall C a np cpu ram arrivals,
+  (a = APriorityPool -> np = 2) -> np = 0 \/ (ram == 0)%Q -> arrivals <> [] ->
+  exists sf logs e, sim_main C a np cpu ram arrivals = (sf, logs, Some e) /\ length logs <= 1.
+Proof. exact sim_main_zero_total_ram_raises. Qed.
+Print Assumptions C08_main_zero_ram_raises.
+
+(* a run of no tick (duration * ticks_per_second < 1) never reaches the division *)
+Theorem C08_main_no_ticks : forall C a np cpu ram,
+  (a = APriorityPool -> np = 2) -> sim_main C a np cpu ram [] = (init_sim C np cpu ram, [], None).
+Proof. exact sim_main_no_ticks. Qed.
+Print Assumptions C08_main_no_ticks.
+
+(* non-vacuity: (number of completed ticks, error) of [sim_main] for zero pools / zero RAM under every policy, and
+   of the loop alone, which runs to the end there *)
+Example C08_main_zero_total_ram_witness :
+  MainExamples.show3 (sim_main RunExamples.C1 ANaive 0 10%Z 10%Q MainExamples.arr1) = (1, Some EOther) /\
+  MainExamples.show3 (sim_main RunExamples.C1 ANaive 2 10%Z 0%Q MainExamples.arr1) = (1, Some EOther) /\
+  MainExamples.show3 (sim_main RunExamples.C1 APriority 2 10%Z 0%Q MainExamples.arr1) = (1, Some EOther) /\
+  MainExamples.show3 (sim_main RunExamples.C1 APriorityPool 2 10%Z 0%Q [[]; []]) = (1, Some EOther) /\
+  MainExamples.show3 (sim_main RunExamples.C1 AOverbook 0 10%Z 10%Q MainExamples.arr1) = (1, Some EOther) /\
+  MainExamples.show3 (sim_main RunExamples.C1 AOverbook 2 10%Z 0%Q MainExamples.arr1) = (0, Some EBadAssignArgs) /\
+  MainExamples.show3 (sim_run RunExamples.C1 ANaive 0%Z (init_sim RunExamples.C1 0 10%Z 10%Q) MainExamples.arr1)
+    = (4, None) /\
+  MainExamples.show3 (sim_run RunExamples.C1 ANaive 0%Z (init_sim RunExamples.C1 2 10%Z 0%Q) MainExamples.arr1)
+    = (4, None) /\
+  MainExamples.show3 (sim_main RunExamples.C1 ANaive 0 10%Z 10%Q []) = (0, None).
+Proof. exact MainExamples.ex_main_zero_total_ram. Qed.
+
+Example C08_main_applies : forall n,
+  exists sf logs,
+    sim_main RunExamples.C1 APriorityPool 2 10%Z 10%Q ([0] :: repeat [] n) = (sf, logs, None) /\ length logs = S n.
+Proof. exact MainExamples.ex_pp_main_applies. Qed.
+
+(* the epilogue with the hypotheses under which the Python code does not divide by zero (audit A/P3) *)
+Theorem C08_final_stats_total_pos : forall C dur s,
+  (0 < dur)%Q -> (0 < cf_tps C)%Z ->
+  exists st, final_stats C dur s = st /\
+    st_throughput st = (inject_Z (st_completed st) / dur)%Q /\
+    (flat_map p_tick_times (e_pools (sm_exec s)) = [] -> st_p99 st = None) /\
+    (flat_map p_tick_times (e_pools (sm_exec s)) <> [] -> exists q, st_p99 st = Some q) /\
+    Forall (fun ps => (pst_completions ps = 0%Z -> pst_mean ps = None /\ pst_p99 ps = None) /\
+                      (pst_completions ps <> 0%Z -> exists m p, pst_mean ps = Some m /\ pst_p99 ps = Some p))
+           [st_all st; st_query st; st_interactive st; st_batch st].
+Proof. exact final_stats_total_pos. Qed.
+Print Assumptions C08_final_stats_total_pos.
+
+(* duration 0: Python raises ZeroDivisionError at `executor.num_completed() / params['duration']`; the model
+   answers throughput 0 although one container completed ([ZeroExamples.sfin] is the final state of
+   C16_retry_after_oom_run). So C08_final_stats_total is, for duration 0, a statement about the totalised
+   function only; the harness generates positive durations only (props/C08.py ASSUMPTIONS) *)
+Example C08_zero_duration_is_totalised :
+  st_completed (final_stats RunExamples.C1 0%Q ZeroExamples.sfin) = 1%Z /\
+  Qeq_bool (st_throughput (final_stats RunExamples.C1 0%Q ZeroExamples.sfin)) 0%Q = true /\
+  Qeq_bool (st_throughput (final_stats RunExamples.C1 (2 # 5)%Q ZeroExamples.sfin)) (5 # 2)%Q = true.
+Proof. exact ZeroExamples.ex_zero_duration_is_totalised. Qed.
